@@ -276,6 +276,11 @@ func checkC13(c *Ctx) {
 	c.checkBatchExecutedAs("C13.exact-delete", reach)
 	// ... and it is removed on every path that pays out (C04.batch-executed)
 	c.include("exact-delete", "C04", rulesIn("C04.batch-executed"))
+	// ... which requires the payout that precedes the removal to run to its end: a panic in the payout arithmetic
+	// is contained by the handler's recover boundary and leaves the executed batch pending (C19's payout clauses)
+	c.include("exact-delete", "C19", rulesIn("C19.prorata", "C19.clamp", "C19.remainder", "C19.units"))
+	// "observed" means voted by more than two thirds of the power: the threshold's form (C02.quorum-guard)
+	c.include("timeout-guard", "C02", rulesIn("C02.quorum-guard"))
 }
 
 func (c *Ctx) checkBatchExecutedAs(rule string, reach map[*ssa.Function]bool) {
